@@ -6,7 +6,7 @@ import streams as S
 
 ID = "C01"
 MODULE = "JmesVerif.Props.C01"
-THEOREMS = ["C01_conformance", "C01_conformance_safe", "C01_search", "C01_unconditional_false"]
+THEOREMS = ["C01_conformance", "C01_conformance_safe", "C01_search", "C01_unconditional_false", "C01_translated_truthy_type"]
 TRUSTED_BASE = [
     "Lean 4.33 kernel; axioms propext, Classical.choice, Quot.sound only",
     "hand-written models Model/Interp.lean (interpreter.rs), Model/Value.lean, Model/Slice.lean, Model/Compare.lean and the parser models, "
